@@ -1,0 +1,82 @@
+//go:build verif
+
+/*
+ Licensed to the Apache Software Foundation (ASF) under one
+ or more contributor license agreements.  See the NOTICE file
+ distributed with this work for additional information
+ regarding copyright ownership.  The ASF licenses this file
+ to you under the Apache License, Version 2.0 (the
+ "License"); you may not use this file except in compliance
+ with the License.  You may obtain a copy of the License at
+
+     http://www.apache.org/licenses/LICENSE-2.0
+
+ Unless required by applicable law or agreed to in writing, software
+ distributed under the License is distributed on an "AS IS" BASIS,
+ WITHOUT WARRANTIES OR CONDITIONS OF ANY KIND, either express or implied.
+ See the License for the specific language governing permissions and
+ limitations under the License.
+*/
+
+package scheduler
+
+import (
+	"github.com/apache/yunikorn-core/pkg/common/resources"
+	"github.com/apache/yunikorn-core/pkg/scheduler/objects"
+)
+
+// Read-only accessors and loop bodies for the simulation harness (build tag verif).
+
+// SimScheduleOnce runs one scheduling cycle (the body of the scheduling loop) without sleeping.
+func (s *Scheduler) SimScheduleOnce() bool {
+	return s.clusterContext.schedule()
+}
+
+// SimQuotaPreemptionTick runs the body of the quota preemption loop once.
+func (s *Scheduler) SimQuotaPreemptionTick() {
+	s.triggerQuotaPreemption()
+}
+
+// SimInspectOutstanding runs the body of the outstanding request inspection loop once.
+func (s *Scheduler) SimInspectOutstanding() (int, *resources.Resource) {
+	return s.inspectOutstandingRequests()
+}
+
+// SimPendingEvents returns the number of RM events not yet picked up by the three handlers.
+func (s *Scheduler) SimPendingEvents() (alloc, node, infra int) {
+	return len(s.pendingAllocEvents), len(s.pendingNodeEvents), len(s.pendingInfraEvents)
+}
+
+// SimReservationCount returns the partition's reservation counter.
+func (pc *PartitionContext) SimReservationCount() int {
+	return pc.getReservationCount()
+}
+
+// SimPlaceholderCount returns the partition's placeholder allocation counter.
+func (pc *PartitionContext) SimPlaceholderCount() int {
+	return pc.getPhAllocationCount()
+}
+
+// SimRoot returns the root queue of the partition.
+func (pc *PartitionContext) SimRoot() *objects.Queue {
+	pc.RLock()
+	defer pc.RUnlock()
+	return pc.root
+}
+
+// SimForeignAllocs returns a copy of the foreign allocations known to the partition.
+func (pc *PartitionContext) SimForeignAllocs() []*objects.Allocation {
+	pc.RLock()
+	defer pc.RUnlock()
+	out := make([]*objects.Allocation, 0, len(pc.foreignAllocs))
+	for _, a := range pc.foreignAllocs {
+		out = append(out, a)
+	}
+	return out
+}
+
+// SimCleanupTick runs the bodies of the partition manager's periodic loops once.
+func (pc *PartitionContext) SimCleanupTick() {
+	pc.partitionManager.cleanQueues(pc.root)
+	pc.cleanupExpiredApps()
+}
